@@ -339,16 +339,17 @@ theorem no_clash_addAttribute (h2 : cfg.addAttrChecksKeys = true) {s : Store} (h
   rcases addAttribute_cases cfg s name with hc | ⟨hc, _, _, hk⟩
   · rw [hc]; exact h
   · rw [hc]
-    have hnk : name ∉ s.dictKeys := by rw [h2] at hk; simpa using hk
+    have hnk : name ∉ s.varKeys := by rw [h2] at hk; simpa using hk
     refine h.mono rfl rfl (fun a ha => ?_)
     rcases List.mem_append.mp ha with h1 | h1
     · exact Or.inl h1
     · right; right; right
       simp at h1; rw [h1]
-      intro hv; exact hnk (by simp only [Store.dictKeys, List.mem_append]; exact Or.inl hv)
+      exact hnk
 
-/-- **An attribute can never take a variable's storage key, nor a variable an attribute's** (configuration: both
-    key checks in force — `Cfg.current` is read off the code on every run): every operation with every operand
+/-- **An attribute can never take a variable's storage key** (`add_attribute` refuses `'_' + X` for a variable `X`),
+    **nor a variable the key of an attribute or of anything else the object stores** (`add_variable` refuses a name
+    whose key `'_' + name` is taken) (configuration: both key checks in force — `Cfg.current` is read off the code on every run): every operation with every operand
     preserves `NoClash`. -/
 theorem no_clash_step (h1 : cfg.addVarChecksKeys = true) (h2 : cfg.addAttrChecksKeys = true) {s : Store}
     (h : NoClash s) (op : Op) : NoClash (step cfg s op).1 := by
